@@ -13,6 +13,9 @@ class FakeTask:
     def __init__(self, bus, msg, period, modifiable):
         self.bus = bus
         self.msg = msg
+        # a task that cannot modify its data in place has handed the frame over at creation
+        # (hardware / kernel cyclic transmission): later changes of the message object are not seen
+        self.frozen = None if modifiable else bytes(msg.data)
         self.period = period
         self.running = True
         self.tid = bus._next_tid
@@ -29,7 +32,8 @@ class FakeTask:
 
     def project(self):
         m = self.msg
-        return {"tid": self.tid, "id": m.arbitration_id, "d": list(bytes(m.data)),
+        return {"tid": self.tid, "id": m.arbitration_id,
+                "d": list(self.frozen if self.frozen is not None else bytes(m.data)),
                 "ext": bool(m.is_extended_id), "rtr": bool(m.is_remote_frame),
                 "period_us": int(round(self.period * 1e6))}
 
